@@ -7,6 +7,7 @@ across every primitive stage holds across every operation (including the wake-up
 Invariants proved after this file only have to treat the primitive stages.
 -/
 import GcpVerif.Model.Pool
+import GcpVerif.Proofs.PoolHold
 namespace GcpVerif.Pool
 
 /-- the composite that follows the prologue of UpdateSubConnState for a known connection -/
@@ -22,6 +23,7 @@ structure Stages (R : St → St → Prop) : Prop where
   setFail : ∀ (s : St) (n : Nat), R s { s with failN := n }
   setNow : ∀ (s : St) (n : Nat), R s { s with now := s.now + n }
   setRr : ∀ s : St, R s { s with rr := (s.rr + 1) % 2 ^ 32 }
+  setHeld : ∀ (s : St) (hl : List (Nat × Nat)), R s { s with held := hl }
   addWaiter : ∀ (s : St) (w : Waiter), R s { s with waiters := s.waiters ++ [w] }
   dropWaiter : ∀ (s : St) (id : Nat), R s { s with waiters := s.waiters.filter fun x => x.id != id }
   addSubConn : ∀ s : St, R s (Pool.addSubConn s).1
@@ -59,6 +61,7 @@ theorem Stages.and {I J : St → Prop} (S1 : Stages (Keeps I)) (S2 : Stages fun 
   setFail s n := fun h => ⟨S1.setFail s n h.1, S2.setFail s n h.1 h.2⟩
   setNow s n := fun h => ⟨S1.setNow s n h.1, S2.setNow s n h.1 h.2⟩
   setRr s := fun h => ⟨S1.setRr s h.1, S2.setRr s h.1 h.2⟩
+  setHeld s hl := fun h => ⟨S1.setHeld s hl h.1, S2.setHeld s hl h.1 h.2⟩
   addWaiter s w := fun h => ⟨S1.addWaiter s w h.1, S2.addWaiter s w h.1 h.2⟩
   dropWaiter s id := fun h => ⟨S1.dropWaiter s id h.1, S2.dropWaiter s id h.1 h.2⟩
   addSubConn s := fun h => ⟨S1.addSubConn s h.1, S2.addSubConn s h.1 h.2⟩
@@ -332,6 +335,12 @@ theorem lift_stepCore (L : Leaves R) (s : St) (op : Op) : R s (stepCore s op).1 
   | pick call pn m ctx dl req => exact lift_opPick L s call pn m ctx dl req
   | ctxdone call => exact lift_opCtxDone L s call
   | done call err reply => exact lift_opDone L s call err reply
+  | pickHold call pn m ctx dl req =>
+    exact opPickHold_cases (R s) s call pn m ctx dl req (L.refl s) (fun hl => L.setHeld s hl)
+      (lift_opPick L s call pn m ctx dl req)
+  | resume call =>
+    exact opResume_cases (R s) s call (L.refl s) (fun hl => L.setHeld s hl)
+      (fun hl _ _ _ => L.trans (L.setHeld s hl) (lift_newSubConn L _))
 
 /-- a relation that holds across every primitive stage holds across every operation -/
 theorem lift_step (L : Leaves R) (s : St) (op : Op) : R s (step s op).1 := by
